@@ -266,12 +266,38 @@ def is_deterministic_here(d, chain):
 # ------------------------------------------------------------------ inventories / conservation
 
 
+def _norm_status(o):
+    """door status is allowed to change (C10); it is not part of an object's identity for conservation"""
+    p = parse_obj(o)
+    if p['type'] == 'Door':
+        return f"D:*:{p['color']}"
+    if p['type'] == 'Box':
+        return 'B(' + _norm_status(p['content']) + ')'
+    return o
+
+
 def inventory(d):
-    """multiset of deep-canonical non-floor objects on the grid plus the held item"""
-    c = Counter(o for row in d['grid'] for o in row if o != 'F')
-    if d['agent'][3] != '_':
-        c[d['agent'][3]] += 1
+    """multiset of deep-canonical non-floor objects on the grid plus the held item (door status ignored)"""
+    c = Counter(_norm_status(o) for row in d['grid'] for o in row if o != 'F')
+    if d['agent'][3] not in ('_', 'F'):
+        c[_norm_status(d['agent'][3])] += 1
     return c
+
+
+def inventories_after_box_opening(d):
+    """inventories obtainable from d by opening exactly one box that is on the grid"""
+    outs = []
+    base = inventory(d)
+    for row in d['grid']:
+        for o in row:
+            if obj_type(o) == 'Box':
+                c = Counter(base)
+                c[_norm_status(o)] -= 1
+                inner = parse_obj(o)['content']
+                if inner != 'F':
+                    c[_norm_status(inner)] += 1
+                outs.append(+c)
+    return outs
 
 
 # ------------------------------------------------------------------ spaces
@@ -500,3 +526,119 @@ def triple(o):
     """(type index, status index, colour value) of an object descriptor"""
     p = parse_obj(o)
     return (BUILTIN_TYPE_ORDER.index(p['type']), STATUS_VALUE[p['status']] if p['type'] == 'Door' else 0, COLOR_VALUE[p['color']])
+
+
+# ------------------------------------------------------------------ planning (witness construction on descriptors)
+
+MOVE_BY_TURN = {v: k for k, v in MOVE_TURNS.items()}
+
+
+def bfs_path(d, src, dst, passable=None, avoid=()):
+    """shortest 4-connected path src..dst (inclusive) over cells for which passable(cell) holds
+    (default: not movement-blocking); cells in `avoid` are never entered (dst excepted)."""
+    if passable is None:
+        passable = lambda o: not blocks_movement(o)  # noqa: E731
+    if src == dst:
+        return [src]
+    prev = {src: None}
+    q = deque([src])
+    while q:
+        p = q.popleft()
+        for n in neighbours4(p):
+            if n in prev or not in_grid(d, n):
+                continue
+            if n != dst and (n in avoid or not passable(cell(d, n))):
+                continue
+            if n == dst and not passable(cell(d, n)):
+                continue
+            prev[n] = p
+            if n == dst:
+                path = [n]
+                while prev[path[-1]] is not None:
+                    path.append(prev[path[-1]])
+                return path[::-1]
+            q.append(n)
+    return None
+
+
+def moves_along(path, heading):
+    """MOVE_* actions (relative to a fixed heading) that follow the path"""
+    acts = []
+    for p, n in zip(path, path[1:]):
+        v = (n[0] - p[0], n[1] - p[1])
+        k = next(k for k in range(4) if FWD[turn(heading, k)] == v)
+        acts.append(MOVE_BY_TURN[k])
+    return acts
+
+
+def turns_to_face(heading, v):
+    """TURN_* actions that make the agent face direction v; returns (actions, new heading)"""
+    k = next(k for k in range(4) if FWD[turn(heading, k)] == v)
+    acts = {0: [], 1: ['TURN_RIGHT'], 2: ['TURN_RIGHT', 'TURN_RIGHT'], 3: ['TURN_LEFT']}[k]
+    return acts, turn(heading, k)
+
+
+def plan_reach(d, goal, avoid=()):
+    """actions that walk the agent onto `goal` without entering `avoid` cells, or None"""
+    path = bfs_path(d, apos(d), goal, avoid=avoid)
+    if path is None:
+        return None
+    return moves_along(path, d['agent'][2])
+
+
+def plan_keydoor(d):
+    """fetch the key, unlock the door, walk to the exit.  None if the model sees no way."""
+    keys = find(d, lambda o: obj_type(o) == 'Key')
+    doors = find(d, lambda o: obj_type(o) == 'Door')
+    exits = find(d, lambda o: obj_type(o) == 'Exit')
+    if len(doors) != 1 or len(exits) != 1:
+        return None
+    door, ex = doors[0], exits[0]
+    chain = ['move_agent', 'turn_agent', 'actuate_door', 'pickndrop']
+    cur = copy.deepcopy(d)
+    plan = []
+
+    def do(acts):
+        nonlocal cur
+        for a in acts:
+            cur = step_det(cur, a, chain)
+            plan.append(a)
+
+    dcol = color_of(cell(d, door))
+    if not (obj_type(cur['agent'][3]) == 'Key' and color_of(cur['agent'][3]) == dcol):
+        ks = [k for k in keys if color_of(cell(d, k)) == dcol]
+        if not ks:
+            return None
+        key = ks[0]
+        best = None
+        for n in neighbours4(key):
+            if in_grid(cur, n) and cell(cur, n) == 'F' or (in_grid(cur, n) and n == apos(cur)):
+                p = bfs_path(cur, apos(cur), n, avoid=set(exits))
+                if p is not None and (best is None or len(p) < len(best[0])):
+                    best = (p, n)
+        if best is None:
+            return None
+        do(moves_along(best[0], cur['agent'][2]))
+        acts, _ = turns_to_face(cur['agent'][2], (key[0] - best[1][0], key[1] - best[1][1]))
+        do(acts)
+        if cur['agent'][3] != '_':
+            return None
+        do(['PICK_N_DROP'])
+    # to a passable neighbour of the door on the agent's side
+    best = None
+    for n in neighbours4(door):
+        if in_grid(cur, n) and not blocks_movement(cell(cur, n)):
+            p = bfs_path(cur, apos(cur), n, avoid=set(exits))
+            if p is not None and (best is None or len(p) < len(best[0])):
+                best = (p, n)
+    if best is None:
+        return None
+    do(moves_along(best[0], cur['agent'][2]))
+    acts, _ = turns_to_face(cur['agent'][2], (door[0] - best[1][0], door[1] - best[1][1]))
+    do(acts)
+    do(['ACTUATE'])
+    p = bfs_path(cur, apos(cur), ex)
+    if p is None:
+        return None
+    do(moves_along(p, cur['agent'][2]))
+    return plan
